@@ -14,8 +14,8 @@ func checkC01(r *Run) {
 	r6 := r.Rule("R-C01-6", "each handle re-issues the enclosing request with the context and client given to Retry; it captures no client, signaller or channel of the first attempt")
 	r7 := r.Rule("R-C01-7", "Retry re-queues the failed entry's continuation and every entry not yet attempted")
 	r8 := r.Rule("R-C01-8", "reconnect resumes the queue: SetClient -> Connect -> Retry on every successful connection; the task goroutine resumes only after Connect succeeded and recycles the link after a failure")
-	r5.Floor(14)
-	r6.Floor(4)
+	r5.Floor(8)
+	r6.Floor(3)
 	sites := c.sitesOrLost(r5)
 	uses := c.ruleRetryableFailures(r5, sites)
 	c.ruleHandleReissues(r6, uses)
